@@ -93,6 +93,15 @@ func c10Scenarios(tier string) []*Scenario {
 								}
 								w.Log(Event{Actor: "env", Op: "gstop-returned-after-rpcs", Detail: fmt.Sprint(ret)})
 								w.StartFault(t, "stop")
+								// an RPC attempted once Stop has been called: it may fail in any way, but
+								// its handler must never run
+								late := StdWorkload("late", 30, "Bidi", []int{3}, []int{3})
+								w.Scripts["late"] = &late.Handler
+								lt := w.Go("caller:late", true, func() {
+									w.WaitUntil("stop-called", func() bool { return w.FaultStep("stop") >= 0 })
+									w.RunCall(t.Conn, &late.Call)
+								})
+								defer w.Join(lt)
 								w.WaitUntil("stopped", func() bool {
 									for _, e := range w.Events {
 										if e.Actor == "fault" && e.Op == "stop-returned" {
@@ -136,6 +145,16 @@ func c10Scenarios(tier string) []*Scenario {
 									if e.Op == "invoked" {
 										bad("later-rpcs-refused", "shutdown:later-rpc-reached-handler", fmt.Sprintf("rpc %s started after the shutdown reached its handler", id))
 									}
+								}
+							}
+							for _, e := range w.EventsOf("handler:late") {
+								if e.Op == "invoked" {
+									bad("later-rpcs-refused", "shutdown:rpc-after-stop-reached-handler", "an RPC started after Stop had been called (GracefulStop before it) reached its handler")
+								}
+							}
+							for _, e := range w.EventsOf("caller:late") {
+								if (e.Op == "invoke" && e.OK()) || (e.Op == "recv" && e.Code == "EOF") {
+									bad("later-rpcs-refused", "shutdown:rpc-after-stop-succeeded", "an RPC started after Stop had been called completed OK")
 								}
 							}
 							// in-flight RPCs: accepted by the server before the shutdown => complete normally
@@ -267,9 +286,48 @@ func c10Scenarios(tier string) []*Scenario {
 	return scs
 }
 
+// c10ServeVsStop: "Stop returns only after every Serve call has returned": a Serve call racing
+// Stop either registers before Stop looks (and is ended by it) or is refused; it never goes on
+// serving a stopped server (the scenario ends only when Serve has returned).
+func c10ServeVsStop(tier string) []*Scenario {
+	var scs []*Scenario
+	for _, sc := range c14Dedicated(tier) {
+		if !strings.HasPrefix(sc.Name, "c14/open-vs-stop") {
+			continue
+		}
+		c := *sc
+		orig := sc.Check
+		c.Name, c.Prop = "c10/serve-vs-stop/"+strings.TrimPrefix(sc.Name, "c14/open-vs-stop/"), "C10"
+		c.Check = func(w *World, x *Exec) []Violation {
+			vs := orig(w, x)
+			for i := range vs {
+				vs[i].Prop = "C10"
+				vs[i].Sig = "shutdown:serve-vs-stop:" + vs[i].Sig
+			}
+			// Serve returned after Stop returned => it must not have served
+			stopRet, serveRet, started := -1, -1, false
+			for _, e := range w.Events {
+				if e.Actor == "fault" && e.Op == "stop-returned" {
+					stopRet = e.Step
+				}
+				if e.Op == "serve-returned" {
+					serveRet = e.Step
+					started = strings.Contains(e.Detail, "started=true")
+				}
+			}
+			if stopRet >= 0 && serveRet > stopRet && started {
+				vs = append(vs, Violation{Prop: "C10", Rule: "stop-waits-for-serve", Sig: "shutdown:stop-returned-before-serving-serve", Detail: fmt.Sprintf("Stop returned at step %d while a Serve call that did serve returned only at step %d\n%s", stopRet, serveRet, w.Outcome())})
+			}
+			return vs
+		}
+		scs = append(scs, &c)
+	}
+	return scs
+}
+
 func init() {
 	register(&PropDef{ID: "C10", Level: "model_checking",
 		Rule:      "in-flight workloads (subsets of size <= 2 of {U with the handler waiting, B mid-stream, CS blocked on the window}, or none) x InitiateShutdown (forward) / GracefulStop (reverse) at every quiescent point x 1-2 RPCs attempted afterwards x {flow control, revision zero}; quick: the shutdown alone at every point (D=1), thorough: + one further deviation, which interleaves the later RPCs' frames with the in-flight ones; then Stop; plus the refusal racing the start of the refused RPC with every synchronisation operation of the library as a scheduling point (both scheduler families); oracle: later RPCs end Unavailable and never reach a handler, RPCs accepted before the shutdown complete normally with all data, the tunnel stays up, GracefulStop returns once they finished, Stop returns after Serve with all handler contexts cancelled, nothing left behind",
 		Globals:   []func(*Scenario, *World, *Exec) []Violation{ProtoMonitor},
-		Scenarios: c10Scenarios})
+		Scenarios: func(tier string) []*Scenario { return append(c10Scenarios(tier), c10ServeVsStop(tier)...) }})
 }
